@@ -23,6 +23,7 @@ type RawTarget struct {
 	mu       sync.Mutex
 	conns    map[net.Conn]struct{}
 	closed   atomic.Bool
+	echo     map[string]string // X-Case -> X-Val of the requests that carried both (under mu)
 	BigSize  int
 	Hold     time.Duration // how long "timeout" keeps the connection silent
 }
@@ -32,13 +33,30 @@ func NewRawTarget() *RawTarget {
 	if err != nil {
 		panic(err)
 	}
-	t := &RawTarget{ln: ln, conns: map[net.Conn]struct{}{}, BigSize: 10 << 20, Hold: 2 * time.Second}
+	t := &RawTarget{ln: ln, conns: map[net.Conn]struct{}{}, echo: map[string]string{}, BigSize: 10 << 20, Hold: 2 * time.Second}
 	go t.accept()
 	return t
 }
 
 func (t *RawTarget) Addr() string    { return t.ln.Addr().String() }
 func (t *RawTarget) Requests() int64 { return t.requests.Load() }
+
+// Echoed returns (and forgets) what the requests tagged X-Case: <prefix>... carried in X-Val.
+func (t *RawTarget) Echoed(prefix string) map[string]string {
+	t.mu.Lock()
+	defer t.mu.Unlock()
+	out := map[string]string{}
+	for k, v := range t.echo {
+		if strings.HasPrefix(k, prefix) {
+			out[strings.TrimPrefix(k, prefix)] = v
+			delete(t.echo, k)
+		}
+	}
+	return out
+}
+
+// HvAlphabet: the header value of letter hv<n> is its first n bytes (distinct bytes: a substring names its position)
+const HvAlphabet = "abcdefghijkl"
 
 func (t *RawTarget) Close() {
 	t.closed.Store(true)
@@ -129,7 +147,19 @@ func (t *RawTarget) serve(c net.Conn) {
 		}
 		t.requests.Add(1)
 		letter := req.Header.Get("X-Letter")
+		if cs := req.Header.Get("X-Case"); cs != "" {
+			t.mu.Lock()
+			t.echo[cs] = req.Header.Get("X-Val")
+			t.mu.Unlock()
+		}
 		switch {
+		case strings.HasPrefix(letter, "hv"):
+			n := 0
+			fmt.Sscanf(letter[2:], "%d", &n)
+			if n > len(HvAlphabet) {
+				n = len(HvAlphabet)
+			}
+			c.Write(okResponse(200, goodBody, HvAlphabet[:n]))
 		case len(letter) == 4 && letter[0] == 's' && strings.Trim(letter[1:], "0123456789") == "":
 			code := 200
 			fmt.Sscanf(letter[1:], "%d", &code)
